@@ -3,7 +3,7 @@ LEAN_MODULES = ["Sif.Props.C05"]
 EXTRACT = [{"group": "bridge", "passes": ["bridgefacts"]}]
 FAMILIES = [
     {"name": "bridge_oracle", "family": "bridge_oracle", "group": "bridge", "driver": "drv_bridge",
-     "n_quick": 300, "n_thorough": 2000, "seeds_thorough": 3},
+     "n_quick": 300, "n_thorough": 1500, "seeds_thorough": 3},
 ]
 RULE = ("bridge_oracle: L1 histories on the real oracle/ethbridge keepers of a full SifchainApp with a real staking keeper: 1-8 validators "
         "with chosen powers (ties, zero power, boundary vectors 10p-7t in {-1,0,1,..}, totals up to 2^48), bonded flags, whitelists with "
